@@ -202,7 +202,7 @@ KEEP = [
     ("C07.c GREEDY-MASK", ("sorted-result", "containment-mask", "pick")),
     ("C07.d CLIP", None),
     ("C07.b NONEMPTY", ("splits",)),
-    ("C08.a WINDOW-GEOM", ("splits", "scores|positions")),
+    ("C08.a WINDOW-GEOM", ("splits", "scores")),
     ("C08.b PEAK-OF-RUN", ("peak", "result", "exceedance")),
     ("C09.a INNER-DOMAIN", None),
     ("C09.b IDX-GATHER", None),
